@@ -364,6 +364,10 @@ MALFORMED = [
     b"rule r\n  command = c\nbuild o r\nbuild: r\nfoo\n= 3\nbuild p: r i\n  =\n",           # parser errors
     b"rule phony\n  command = x\nbuild o: phony i\n",
     b"rule r\n  command = c $in\n  rspfile = /abs/../r.rsp\n  rspfile_content = $in_newline\nbuild o: r a b\n",
+    # rule-variable cycles that do NOT pass through the parameter the expansion starts from (seeded change C19-8)
+    b"rule cc\n  command = cc @$rspfile\n  rspfile = $rspfile_content.rsp\n  rspfile_content = $rspfile\nbuild o: cc i\n",
+    b"rule r\n  command = c\n  depfile = x$description\n  description = y$depfile\nbuild o: r i\n",
+    b"rule r\n  command = a $description\n  description = b $rspfile\n  rspfile = c$rspfile_content\n  rspfile_content = d $description\nbuild o: r i\n",
 ]
 
 
